@@ -302,8 +302,9 @@ def o6(prog, rep):
     ok = len(mc) == 1 and norm(mc[0].arg(0)) == ("v", gt.params[0]["name"], gt.params[0]["id"])
     adds = {}
     for e in gt.all_elems():
-        if e.is_assign and e.op in ("+=", "-=") and fieldname(norm(e.kid(0))) in ("tv_sec", "tv_usec"):
-            adds.setdefault(fieldname(norm(e.kid(0))), []).append((e.op, norm(e.kid(1)), e))
+        st = ir.step(e)
+        if st and fieldname(st[1]) in ("tv_sec", "tv_usec"):
+            adds.setdefault(fieldname(st[1]), []).append((st[0], st[2], e))
     def isdelta(n, fld):
         return fieldname(n) == fld and root_var(n)[1] == gt.params[1]["name"]
     ok = ok and any(o == "+=" and isdelta(n, "tv_sec") for o, n, _ in adds.get("tv_sec", [])) and any(o == "+=" and isdelta(n, "tv_usec") for o, n, _ in adds.get("tv_usec", []))
